@@ -83,7 +83,7 @@ def gen_traces(cfgnames, tid0=5 * 10**6):
         tid += len(inits)
         step = max(1, (len(items) + 31) // 32)
         jobs += [(c, items[i:i + step]) for i in range(0, len(items), step)]
-    with mp.get_context("fork").Pool(common.NCPU) as pool:
+    with common.pool(common.NCPU) as pool:
         out = pool.map(_chunk, jobs)
     return [tr for ch in out for tr in ch], counts
 
